@@ -42,6 +42,7 @@ package cty
 //@   ensures[C02] list: (=> (and (is_list_ty t) (is_number_ty kt) (kn val) (kn key)) (bool_payload result (seq_has val key)))
 //@   ensures[C02] map: (=> (and (is_map_ty t) (is_string_ty kt) (kn val) (kn key)) (bool_payload result (map_has val key)))
 //@   ensures[C02] tuple: (=> (and (is_tuple_ty t) (is_number_ty kt) (kn key)) (bool_payload result (tup_has val key)))
+//@   ensures[C01,C02] notnull: (not (is_null result))
 //@   ensures[C02] wrongkey: (=> (and (not (is_dyn_ty t)) (not (is_dyn_ty kt)) (or (and (or (is_list_ty t) (is_tuple_ty t)) (not (is_number_ty kt))) (and (is_map_ty t) (not (is_string_ty kt))))) (bool_payload result false))
 //@   ensures[C04] marks_kept: (forall ((k Any)) (! (=> (or (select (marks_of val) k) (select (marks_of key) k)) (select (marks_of result) k)) :pattern ((select (marks_of result) k))))
 //@   ensures[C06] wf: (wf_deep result)
@@ -144,3 +145,21 @@ package cty
 //@   ensures[C01] unknown: (=> (and sc (not (and (is_bool_ty t) (kn val) (bool_of val))) (not (and (is_bool_ty ot) (kn other) (bool_of other)))) (not (is_known result)))
 //@   ensures[C04] marks_kept: (forall ((k Any)) (! (=> (or (select (marks_of val) k) (select (marks_of other) k)) (select (marks_of result) k)) :pattern ((select (marks_of result) k))))
 //@   ensures[C06] wf: (wf_deep result)
+//
+// Equals is not verified yet (C03): the clauses below are assumed at its call sites.
+//@ func (cty.Value).Equals
+//@   trusted
+//@   requires (and (wf_deep val) (wf_deep other))
+//@   ensures (and (is_bool_ty (vty result)) (wf_deep result))
+//@   ensures (=> (and (is_bool_ty (vty val)) (is_bool_ty (vty other)) (kn val) (kn other) (not (is_marked val)) (not (is_marked other))) (and (not (is_marked result)) (bool_payload result (= (bool_of val) (bool_of other)))))
+//@   ensures (=> (and (is_string_ty (vty val)) (is_string_ty (vty other)) (kn val) (kn other) (not (is_marked val)) (not (is_marked other))) (and (not (is_marked result)) (bool_payload result (= (str_of val) (str_of other)))))
+//
+//@ func (cty.Value).True
+//@   tags C02
+//@   requires (and (wf_deep val) (not (is_marked val)) (is_bool_ty (vty val)) (kn val))
+//@   ensures[C02] (= result (bool_of val))
+//
+//@ func (cty.Value).False
+//@   tags C02
+//@   requires (and (wf_deep val) (not (is_marked val)) (is_bool_ty (vty val)) (kn val))
+//@   ensures[C02] (= result (not (bool_of val)))
